@@ -375,7 +375,7 @@ CHECKS["C10"] = NS(
         "or >= 2 cycles. Distinct by (model recipe, configuration, calibration, frozen, cycle list)."
     ),
     ASSUMPTIONS=["CPU only: 'on the device of the target model' is checked for cpu", "memory-format changes (channels_last) are not part of these histories (safetensors refuses non-contiguous tensors of any model)"],
-    PLAN={"quick": [("cycles", 16, {"n": 100})], "thorough": [("cycles", 16, {"n": 4000})]},
+    PLAN={"quick": [("matrix", 8, {}), ("cycles", 8, {"n": 150})], "thorough": [("matrix", 8, {}), ("cycles", 16, {"n": 4000})]},
 )
 
 CHECKS["C14"] = NS(
